@@ -1836,4 +1836,31 @@ def r21(F, R):
     R.floor(6)
 
 
-RULES = [("R21", r21, None), ("R20", r20, None), ("R19", r19, ["all", "libtest"]), ("R18", r18, ["all", "libtest"]), ("R17", r17, None), ("R16", r16, ["all", "libtest"]), ("R15", r15, ["all", "junit"]), ("R14", r14, None), ("R13", r13, None), ("R12", r12, None), ("R11", r11, None), ("R10", r10, ["all", "json"]), ("R9", r9, None), ("R8", r8, ["all", "junit"]), ("R7", r7, ["all", "json"]), ("R6", r6, ["all", "json"]), ("R5", r5, ["all", "junit"]), ("R1", r1, None), ("R2", r2, None), ("R3", r3, None), ("R4", r4, None)]
+def r22(F, R):
+    """Locations name what exists: `trim_path` (strips the project directory and leading separators) is applied to paths only — at none of its
+    uses (direct calls, `.map(trim_path)`) can the value be a feature's / scenario's *name* (the fall-back shown for a path-less feature): a name
+    starting with `/` or the project directory would be reported mutilated, naming a feature that does not exist in the run."""
+    n = 0
+    bad = {}
+    for b in F.crate_bodies():
+        for s_, t in b.calls():
+            vals = []
+            if callee_is(t, r"writer::basic::trim_path$|(^|::)trim_path$") and t["args"]:
+                vals.append(t["args"][0])
+            elif any((op_fn(a) or {}).get("path", "").endswith("trim_path") for a in t["args"]) and t["args"]:
+                vals.append(t["args"][0])        # `opt.map(trim_path)` / `.and_then(|p| p.to_str().map(trim_path))`: the receiver
+            for v in vals:
+                n += 1
+                fl = A.deep_slice(F, b, [v]).fields
+                names = sorted(o for o, n_ in fl if n_ == "name" and o.startswith("gherkin::"))
+                if names:
+                    bad[F.root_fn(b).short] = (s_, names)
+    for fn, (s_, names) in sorted(bad.items()):
+        R.violation(f"trim-path-on-paths-only/{fn.rsplit('::', 1)[-1]}", s_, f"`trim_path` can be handed the name of a {names}: a path-less feature whose name starts with `/` (or the project "
+                    f"directory) is reported under a mutilated name")
+    if not bad:
+        R.check(n >= 3, "trim-path-on-paths-only", None, f"{n} uses of trim_path, all on paths", f"only {n} uses of trim_path found")
+    R.floor(1)
+
+
+RULES = [("R22", r22, None), ("R21", r21, None), ("R20", r20, None), ("R19", r19, ["all", "libtest"]), ("R18", r18, ["all", "libtest"]), ("R17", r17, None), ("R16", r16, ["all", "libtest"]), ("R15", r15, ["all", "junit"]), ("R14", r14, None), ("R13", r13, None), ("R12", r12, None), ("R11", r11, None), ("R10", r10, ["all", "json"]), ("R9", r9, None), ("R8", r8, ["all", "junit"]), ("R7", r7, ["all", "json"]), ("R6", r6, ["all", "json"]), ("R5", r5, ["all", "junit"]), ("R1", r1, None), ("R2", r2, None), ("R3", r3, None), ("R4", r4, None)]
